@@ -249,7 +249,7 @@ def main(run):
     ok_t, log_t = coq_make(["props/T02.vo"])
     if not ok_t:
         run.violation("proof obligation does not check: props/T02.v (equity export text model) failed to build",
-                      {"theorem_file": "coq/props/T02.v", "log": log_t[-2000:]}, found_input=False)
+                      {"theorem_file": "coq/props/T02.v", "log": log_t[-2000:], "stage": "T02"}, found_input=False)
     else:
         t02_text.run_text_stage(run, n=(30 if run.tier == "quick" else 400))
     return run.finish(info)
@@ -399,12 +399,14 @@ def evaluate(run, cases):
 
 def replay(run, path):
     """re-run the stored case against the current /repo; exit 1 if it still violates"""
-    j = json.load(open(path))
-    rp = j.get("replay", j)
+    j, rp, rc = replay_begin(run, path)          # replays of the T02 text stage go to t02.replay
+    if rc is not None:
+        return rc
+    if not (isinstance(rp.get("journal"), str) and "equity_account" in rp):
+        return replay_print(j)
+    print(j.get("what"))
     print(json.dumps({k: rp.get(k) for k in ("journal", "equity_account", "equity_selectors", "selectors_given_as", "audit",
                                               "price_conversion_configured", "export_text")}, indent=1, ensure_ascii=False)[:6000])
-    if "journal" not in rp:
-        return 0
     spec = rp.get("selector_spec")
     c = {"text": rp["journal"], "eqa": rp["equity_account"], "sel": None if spec is None else [(bool(e), t) for (e, t) in spec],
          "audit": bool(rp.get("audit")), "tags": ["replay"], "via_cli_accounts": rp.get("selectors_given_as") == "--accounts",
@@ -416,8 +418,5 @@ def replay(run, path):
     harness_build()
     evaluate(run, [c])
     print("export now:\n%s" % c.get("export"))
-    for (what, _, found) in run.violations:
-        print("REPRODUCED: %s%s" % (what, "" if found else " (no failing input: correspondence only)"))
-    if not run.violations:
-        print("not reproduced (bits: %s)" % run.notes.get("corpus_bits"))
-    return 1 if run.violations else 0
+    return replay_verdict(run, path, j, "the equity export of the stored case carries the selected balances forward, does not depend on earlier reports, "
+                                        "the account name is judged as specified and the model agrees (stage %s, bits %s)" % (c.get("stage"), run.notes.get("corpus_bits")))
